@@ -481,8 +481,16 @@ pub fn check_case(re: &Regex, case: &Case, cap: usize, with_builder: bool, rng: 
         // case-insensitive flag changes what the pattern means, so only what does not depend on
         // the answer is judged: the run used the limit that was set, an abort happened exactly at
         // the (k+1)-th backtrack, an answer needed at most k.
-        for k in [3usize, 1 << 33] {
-            for combo in 0..8u32 {
+        // 4 of the 16 (limit, combination) pairs per case, chosen by the case itself (so that a
+        // replay builds the same ones): each pair costs a regex build
+        let mut pick = Fnv::new();
+        pick.str(&case.pattern);
+        pick.str(&case.text);
+        for i in 0..4u64 {
+            let sel = (pick.0.wrapping_add(i.wrapping_mul(5))) % 16;
+            let k = if sel & 8 != 0 { 1usize << 33 } else { 3usize };
+            {
+                let combo = (sel & 7) as u32;
                 let (ci, sizes, first) = (combo & 1 != 0, combo & 2 != 0, combo & 4 != 0);
                 let mut b = RegexBuilder::new(&case.pattern);
                 if first {
